@@ -26,7 +26,7 @@ import (
 var stray int64
 
 const (
-	MaxTasks    = 96
+	MaxTasks    = 512
 	MaxSwitches = 192
 	MaxPoints   = 8
 )
